@@ -6,7 +6,7 @@ from typing import Dict, List, Optional, Tuple
 
 from ..core import Ctx
 from ..loader import AnalysisError
-from ..symex import SUMMARIZER, expand, strip_ifexp_paths, u
+from ..symex import SUMMARIZER, expand, strip_ifexp_paths, u, main_leaf, main_path, side_paths
 
 MA = "matrix/assembler.py"
 SA = "stripe/assembler.py"
@@ -181,7 +181,7 @@ def measure_table(ctx: Ctx):
     raises = [u(n.exc.func) for n in ast.walk(m.node) if isinstance(n, ast.Raise) and isinstance(n.exc, ast.Call)]
     ctx.note(f"sibling note: matrix raises {raises} for an unsupported measure keyword, the stripe helper raises ValueError (falls back); reported, not a violation of the stated property")
     e = expand(ctx.repo, ci, "_measure", stop=lambda mm: True)
-    leaf = strip_ifexp_paths(e)[-1][1]
+    leaf = main_leaf(e)
     ok = isinstance(leaf, ast.Call) and u(leaf.func) == "getattr" and u(leaf.args[0]) == "self._second_order_measures"
     ctx.ob("measure-table.lookup", where, u(leaf)[:80], "getattr(self._second_order_measures, <table[measure]>)", ok)
     os_ = ctx.repo.cls("dimension.py", "_OrderSpec")
